@@ -118,6 +118,7 @@ func main() {
 	nested := flag.Int("nested", 40, "number of (point, class) pairs whose recovery is crashed again at every operation")
 	usage := flag.Int("usage", 8, "number of recovered DBs that run a follow-up program")
 	par := flag.Int("par", 16, "parallel reopens")
+	writers := flag.Int("writers", 0, "concurrent writers in a merged-writes phase (0: none)")
 	flag.Parse()
 
 	rng := rand.New(rand.NewSource(*seed))
@@ -145,6 +146,10 @@ func main() {
 	}
 	w.DB = db
 	for i := 0; i < *nsteps; i++ {
+		if *writers > 1 && i == *nsteps/2 {
+			// merged groups of sync and non-sync writers become durable together
+			w.ConcurrentPhase(*writers, 25, *seed)
+		}
 		if err := w.Step(); err != nil {
 			// no faults are injected here: an error is a finding of its own
 			tr.Emit(vt.Ev{"ev": "workload-error", "err": err.Error()})
